@@ -44,7 +44,10 @@ def run(chk, tier):
     iD = field_index(g.adt, "data")
     iR = field_index(g.adt, "rounds")
     iM = field_index(g.adt, "mem_prev_index")
-    iH = field_index(g.adt, "data_half_used")
+    try:
+        iH = field_index(g.adt, "data_half_used")  # only used for the constructor's initial values; the half bookkeeping is C16's
+    except Anchor:
+        iH = None
     nob = 0
 
     # ---- lfsr
@@ -284,7 +287,7 @@ def run(chk, tier):
     args, objs = symbolic_args(ev, st, crate.bodies[nk])
     r = ev.call_body(st, nk, args)
     okn = isinstance(r, Struct) and r.fields[iD] is T.const(0, 64) and r.fields[iR] is T.const(64, 8) and r.fields[iM] is T.const(0, 16) \
-        and r.fields[iH] is T.FALSE
+        and (iH is None or r.fields[iH] is T.FALSE)
     chk.ob("R10", "new_with_timer|pool 0, 64 rounds, memory index 0, no pending half", okn, "", where=crate.bodies[nk]["span"][0], nontrivial=False)
     # ---- test_timer / gen_entropy reading counts come from the loop records of the fully inlined evaluation
     ev = ev_for(crate)
@@ -295,7 +298,7 @@ def run(chk, tier):
     per = sorted(r_.min_ticks for r_ in recs)
     chk.ob("R9", "gen_entropy|each repetition of a measurement reads the timer three times", 3 in per, "ticks per loop iteration: %s" % per,
            where=crate.bodies[gk]["span"][0])
-    chk.floor("R0", "fragments", len(chk.obs), 24)
+    chk.floor("R0", "fragments", len(chk.obs), 20)  # 25 on the reference tree; vacuity guard
 
 
 def _max_ticks(w, base):
